@@ -153,9 +153,20 @@ func scenario(op *spec.Op, path string, maxLen int) e1.Scenario {
 	return scenarioX(op, path, maxLen, false)
 }
 
+
+func burstScenario(op *spec.Op, path string, maxLen int) e1.Scenario {
+	sc := scenarioY(op, path, maxLen, false, true)
+	sc.Name += "/burst"
+	return sc
+}
+
 // scenarioX with lengths=true: the first datagram has every length 0..1100 except 64 (its first 64
 // bytes a well-formed reply), the second is well-formed.
 func scenarioX(op *spec.Op, path string, maxLen int, lengths bool) e1.Scenario {
+	return scenarioY(op, path, maxLen, lengths, false)
+}
+
+func scenarioY(op *spec.Op, path string, maxLen int, lengths bool, burst bool) e1.Scenario {
 	var o *observation
 	args := ops.EchoArgs(op, ops.BaselineReply(op))
 	name := fmt.Sprintf("%s/%s/len<=%d", op.Name, path, maxLen)
@@ -200,7 +211,11 @@ func scenarioX(op *spec.Op, path string, maxLen int, lengths bool) e1.Scenario {
 				}
 				cur.seq = append(cur.seq, c)
 				cur.sent = append(cur.sent, d)
-				replies = append(replies, farm.Reply{Delay: time.Duration(k+1) * T / 10, Data: d})
+				at := time.Duration(k+1) * T / 10
+				if burst {
+					at = T / 10
+				}
+				replies = append(replies, farm.Reply{Delay: at, Data: d})
 			}
 			return replies
 		}
@@ -254,6 +269,9 @@ func scenarioX(op *spec.Op, path string, maxLen int, lengths bool) e1.Scenario {
 		d := o.sent[decider]
 		cls := classNames[o.seq[decider]]
 		at := int64(decider+1) * int64(T) / 10
+		if burst {
+			at = int64(T) / 10
+		}
 		valid := cls == "valid" || (cls == "protocol-19" && op.Code == 0x20)
 		if !valid {
 			if o.obs.Err == nil {
@@ -315,6 +333,12 @@ func main() {
 			scenarios = append(scenarios, scenario(op, path, n))
 		}
 	}
+	for _, name := range []string{"GetStatus", "GetCardByID", "PutCard"} {
+		// (not TCP: datagrams arriving together on a stream are one longer read, not a sequence)
+		for _, path := range []string{"broadcast", "udp"} {
+			scenarios = append(scenarios, burstScenario(spec.OpByName(name), path, 3))
+		}
+	}
 	sweep := []string{"GetStatus"}
 	if r.Thorough() {
 		sweep = []string{"GetStatus", "GetCardByID", "PutCard", "GetTimeProfile", "GetEvent"}
@@ -333,7 +357,7 @@ func main() {
 	if r.Worker == "" && r.Replay == "" {
 		e1.Conformance(r)
 	}
-	r.Rule("for each of the 31 directed operations x {broadcast, connected UDP, TCP}: every sequence of datagram classes " + fmt.Sprint(classNames[1:nRegular]) + fmt.Sprintf(" up to length %d (%d for GetStatus, GetCardByID, PutCard), chosen datagram by datagram by the environment; for GetStatus (thorough: 5 operations) x 3 paths a first datagram of every length 0..1100 but 64 (well-formed 64-byte prefix) followed by a well-formed one;", short, long) + " distinct = distinct (sequence, outcome-kind) labels observed")
+	r.Rule("for each of the 31 directed operations x {broadcast, connected UDP, TCP}: every sequence of datagram classes " + fmt.Sprint(classNames[1:nRegular]) + fmt.Sprintf(" up to length %d (%d for GetStatus, GetCardByID, PutCard), chosen datagram by datagram by the environment, arriving 0.1 T apart (and, for those three operations, every sequence up to length 3 arriving in one instant on the two UDP paths); for GetStatus (thorough: 5 operations) x 3 paths a first datagram of every length 0..1100 but 64 (well-formed 64-byte prefix) followed by a well-formed one;", short, long) + " distinct = distinct (sequence, outcome-kind) labels observed")
 	r.Assume("simulated network vs/net.go models UDP/TCP delivery, deadlines and buffer truncation; its fidelity is validated on the loopback by the E3 replays where registered")
 	r.Assume("reference acceptor and decoder in /verif/spec")
 	r.Finish()
